@@ -677,6 +677,10 @@ func (c *c14Ctx) wellFormedCase() {
 		c.twin(outcomes, "strkeys", "symkeys", "symbol-keyed-map-validates-differently-from-string-keyed", top, base)
 		c.twin(outcomes, "json", "json-rebuilt", "json-decoded-map-validates-differently-from-lisp-built", top, base)
 	}
+	if c.idx%3 == 1 {
+		// the validator as the base type of another one, constraints declared on top
+		c.derivedCase(top)
+	}
 }
 
 func c14Canon(v *c14x.Value) string {
